@@ -39,6 +39,11 @@ impl Dev {
     fn name(&mut self) -> Result<(&str, f32, bool), scpi::Error> {
         Ok(("dev", 1.5, true))
     }
+    #[scpi(cmd = "WIDE")]
+    async fn wide(&mut self, a: u8, b: i16, c: u32, d: bool, e: f32, f: &str) -> Result<(), scpi::Error> {
+        self.value = a as u32 + b as u32 + c + d as u32 + e as u32 + f.len() as u32;
+        Ok(())
+    }
     #[scpi(cmd = "DATA")]
     fn data(&mut self, _s: &str, _b: &[u8], _f: f64, _o: bool) -> Result<(), scpi::Error> {
         Ok(())
@@ -48,7 +53,7 @@ impl Dev {
 pub struct Port {
     pos: usize,
 }
-const STREAM: &[u8] = b"VAL 5;VAL?\nNAM?\nDATA 'a',#11x,1.5,ON\nSYST:ERR?\n";
+const STREAM: &[u8] = b"VAL 5;VAL?\nNAM?\nDATA 'a',#11x,1.5,ON\nWIDE 1,2,3,ON,1.5,'s'\nSYST:ERR?\n";
 
 impl Adapter for Port {
     type Error = ();
